@@ -95,7 +95,7 @@ def replay(harness, behaviours, out_prefix, shards=8):
                                        stdout=subprocess.PIPE, stderr=subprocess.STDOUT, text=True), rec, p))
     recs = []
     for pr, rec, p in procs:
-        out, _ = pr.communicate()
+        out, _ = pr.communicate(timeout=1500)
         if pr.returncode != 0:
             sys.stderr.write("replay failed (%s): %s\n" % (p, out[-2000:]))
             raise SystemExit(2)
